@@ -1205,6 +1205,21 @@ func codecOtherModes(mode string, rng *rand.Rand, stt *stats, w *evWriter, n int
 			stt.distinct(renderPayload(c))
 			w.Emit(ev, c)
 		}
+		// arrays of resources of several types (C06 speaks of every accepted resource payload, also
+		// inside a collection): every member keeps its own type and values
+		colTypes := [][]string{{"ak2", "ak2", "ak3", "ak2"}, {"ak3", "ak2"}, {"ak2", "ak3", "ak3", "ak2", "ak"}, {"ak"},
+			{"ak3", "ak3"}, {"ak", "ak2", "ak", "ak3"}, {}}
+		for _, impl := range []string{"soft", "wrap"} {
+			for _, via := range []string{"collection", "document"} {
+				for _, ts := range colTypes {
+					c := colCase{Fam: "codec", Mode: "colpayload", Impl: impl, Via: via, Types: ts}
+					ev := runColPayload(c)
+					stt.Calls++
+					stt.class("col:" + ev.Out)
+					w.Emit(ev, c)
+				}
+			}
+		}
 		stt.Rule = "distinct resource payloads (attribute subset with literals, relationship object shapes)"
 	default:
 		infra("unknown codec mode %q", mode)
@@ -1217,8 +1232,103 @@ func mustB64(s string) string {
 	return string(b)
 }
 
+// ---- C06: members of a collection payload ----------------------------------------
+
+type colCase struct {
+	Fam   string   `json:"fam"`
+	Mode  string   `json:"mode"`
+	Impl  string   `json:"impl"`
+	Via   string   `json:"via"` // collection | document
+	Types []string `json:"types"`
+}
+
+type colEvent struct {
+	Ev        string `json:"ev"`
+	Impl      string `json:"impl"`
+	Via       string `json:"via"`
+	N         int    `json:"n"`
+	Out       string `json:"out"` // accept | reject | panic
+	CountSame bool   `json:"count_same"`
+	TypesSame bool   `json:"types_same"`
+	IDsSame   bool   `json:"ids_same"`
+	ValsSame  bool   `json:"vals_same"`
+}
+
+func runColPayload(c colCase) colEvent {
+	ev := colEvent{Ev: "colpayload", Impl: c.Impl, Via: c.Via, N: len(c.Types)}
+	schema := akSchema(c.Impl)
+	var members []string
+	for i, t := range c.Types {
+		switch t {
+		case "ak2":
+			members = append(members, fmt.Sprintf(`{"type":"ak2","id":"r%d","attributes":{"s":"v%d"},"relationships":{"back":{"data":{"type":"ak","id":"b%d"}}}}`, i, i, i))
+		case "ak3":
+			members = append(members, fmt.Sprintf(`{"type":"ak3","id":"r%d","attributes":{"t":"w%d","u":%d}}`, i, i, i+1))
+		default:
+			members = append(members, fmt.Sprintf(`{"type":"ak","id":"r%d","attributes":{"kstring":"k%d","kint8":%d}}`, i, i, i+1))
+		}
+	}
+	payload := "[" + strings.Join(members, ",") + "]"
+	var col jsonapi.Collection
+	var err error
+	p, _ := catch(func() {
+		if c.Via == "document" {
+			var doc *jsonapi.Document
+			doc, err = jsonapi.UnmarshalDocument([]byte(`{"data":`+payload+`}`), schema)
+			if err == nil {
+				col, _ = doc.Data.(jsonapi.Collection)
+			}
+		} else {
+			col, err = jsonapi.UnmarshalCollection([]byte(payload), schema)
+		}
+	})
+	switch {
+	case p:
+		ev.Out = "panic"
+		return ev
+	case err != nil || col == nil || reflectIsNil(col):
+		ev.Out = "reject"
+		return ev
+	}
+	ev.Out = "accept"
+	p, _ = catch(func() {
+		ev.CountSame = col.Len() == len(c.Types)
+		ev.TypesSame, ev.IDsSame, ev.ValsSame = true, true, true
+		for i, t := range c.Types {
+			if i >= col.Len() {
+				break
+			}
+			r := col.At(i)
+			if r.GetType().Name != t {
+				ev.TypesSame = false
+				continue // the fields below are those of the listed type
+			}
+			if r.Get("id") != fmt.Sprintf("r%d", i) {
+				ev.IDsSame = false
+			}
+			switch t {
+			case "ak2":
+				ev.ValsSame = ev.ValsSame && r.Get("s") == fmt.Sprintf("v%d", i) && r.Get("back") == fmt.Sprintf("b%d", i)
+			case "ak3":
+				u, _ := r.Get("u").(*uint)
+				ev.ValsSame = ev.ValsSame && r.Get("t") == fmt.Sprintf("w%d", i) && u != nil && *u == uint(i+1)
+			default:
+				ev.ValsSame = ev.ValsSame && r.Get("kstring") == fmt.Sprintf("k%d", i) && r.Get("kint8") == int8(i+1)
+			}
+		}
+	})
+	if p {
+		ev.Out = "panic"
+	}
+	return ev
+}
+
 func codecRunOther(mode string, raw json.RawMessage) any {
 	switch mode {
+	case "colpayload":
+		var c colCase
+		must(json.Unmarshal(raw, &c))
+		return runColPayload(c)
 	case "roundtrip":
 		var c rtCase
 		must(json.Unmarshal(raw, &c))
